@@ -105,6 +105,7 @@ fn exec(p: &[&str]) -> String {
             }
             "OK".into()
         }
+        "EXIT" => std::process::exit(0),      // orderly exit (atexit handlers run: coverage builds write their profile)
         "ITER" => verif::LOOP_ITER.load(Ordering::SeqCst).to_string(),
         "SWEEPS" => verif::SWEEP_PASSES.load(Ordering::SeqCst).to_string(),
         "RDBFAIL" => {
